@@ -32,7 +32,13 @@ def main():
             r=subprocess.run(['patch','-p1','-s','-d',d,'-i',p],capture_output=True,text=True)
             if r.returncode!=0:
                 print('FAIL (patch does not apply)',name,r.stdout[-300:]); ok=False; continue
-            r=subprocess.run([V+'/bin/govc','check','-prop',prop,'-repo',d,'-no-evidence','-verif','/var/tmp/govc-st-verif'],capture_output=True,text=True)
+            cmd=[V+'/bin/govc','check','-prop',prop,'-repo',d,'-no-evidence','-verif','/var/tmp/govc-st-verif']
+            # obligations are generated per function: when the expected obligation names a
+            # function, only that function's obligations are generated (same verdict, much faster)
+            fn = obl.split('/')[0].split('.')[-1] if obl else ''
+            if fn and not os.environ.get('SELFTEST_FULL'):
+                cmd += ['-func', r'(^|[.)])'+re.escape(fn)+'$']
+            r=subprocess.run(cmd,capture_output=True,text=True)
             out=r.stdout
             hit=[l for l in out.split('\n') if l.startswith('VIOLATION') and ('obligation='+obl) in l]
             allv=[l for l in out.split('\n') if l.startswith('VIOLATION')]
